@@ -237,7 +237,9 @@ CHECKS["C14"] = dict(
     level_note="Trusted: the window model in harness/rtr/oracle_test.go, memsock, VerifNewRouter/VerifRetainedLen. After an un-gated lost indication the model only demands that every retransmission is an earlier successful message (which messages were retained when the serve loop obtained the lock is not observable).",
     technique="rapid model-based testing of generated send/lost/busy/close histories (reference retained-window model, frame attribution), real clock",
     assumptions=_RTR_ASSUME,
-    jobs=[dict(name="real", pkg="./rtr", go=GO, test="TestC14", shards=(6, 16), checks=(120, 2500), timeout=(600, 3000))],
+    jobs=[dict(name="real", pkg="./rtr", go=GO, test="TestC14", shards=(6, 16), checks=(120, 2500), timeout=(600, 3000)),
+          # the real constructors (knx.NewRouter / NewGroupRouter) over multicast with loopback: send, lost -> resend, receive, Close
+          dict(name="conformance", pkg="./sock", go=GO, test="TestConformanceRouter", shards=(2, 8), checks=(12, 150), timeout=(600, 3000))],
 )
 
 CHECKS["C17"] = dict(
@@ -268,7 +270,10 @@ CHECKS["C09"] = dict(
     level_note="Trusted: the heartbeat/epoch model in harness/tun/c09_test.go. With overlapping exchanges (heartbeat < timeout) only exchange start times and the admissible resend schedules are checked (which exchange receives a response is not determined). Histories the model cannot resolve (a delivery exactly on a tick) are counted as inconclusive. Send racing a successful reconnect is outside the virtual-time discipline.",
     technique="rapid model-based testing of generated gateway fate scripts under testing/synctest virtual time (reference heartbeat/reconnect model, exact instants)",
     assumptions=_TUN_ASSUME,
-    jobs=[dict(name="bubble", pkg="./tun", go=GO126, test="TestC09B", shards=(4, 16), checks=(2500, 30000), timeout=(600, 3000))],
+    jobs=[dict(name="bubble", pkg="./tun", go=GO126, test="TestC09B", shards=(4, 16), checks=(2500, 30000), timeout=(600, 3000)),
+          # the real constructors (knx.NewTunnel / NewGroupTunnel) against a rule-following loopback gateway:
+          # connect, numbered Sends, inbound requests + acknowledgements, heartbeat, Close
+          dict(name="conformance", pkg="./sock", go=GO, test="TestConformanceTunnel", shards=(2, 8), checks=(12, 150), timeout=(600, 3000))],
 )
 
 CHECKS["C10"] = dict(
